@@ -46,6 +46,16 @@ def lex_cmp(ex, a, b):
                   mk_ite(mk_bin('Eq', a, b, ty, 'bool'), ordering(ex, 'Equal'), ordering(ex, 'Greater')))
 
 
+def as_table(ex, arr):
+    """a constant integer array (of any length) as a registered table node, or None"""
+    if arr[0] == 'tbl':
+        return arr
+    if arr[0] == 'agg' and arr[2] and all(e[0] == 'c' and isinstance(e[1], int) for e in arr[2]):
+        name = ex.pdb.register_table([e[1] for e in arr[2]])
+        return mk('tbl', name, len(arr[2]), arr[2][0][2])
+    return None
+
+
 def elem_ty_of_slice(ex, st, ref):
     v = ex.load(st, ref)
     if v[0] == 'agg' and v[2]:
@@ -132,6 +142,11 @@ def iter_items(ex, ctx, st, it):
             if arr[0] != 'agg':
                 raise Uncertified("array iterator over %s" % arr[0])
             return list(arr[2][pos[1]:]), st
+        if name == 'Chars' and it[2][0][0] == 'c':
+            text = it[2][0][1]
+            return [C(ord(ch), 'char') for ch in text[it[2][1][1]:]], st
+        if name == 'Cycle':
+            raise Uncertified("cycle adapter")
         if name == 'Rev':
             items, st = iter_items(ex, ctx, st, it[2][0])
             return items[::-1], st
@@ -170,6 +185,20 @@ def iter_items(ex, ctx, st, it):
             raise Uncertified("range with symbolic bounds")
         end = hi[1] + (1 if k[1].endswith('Inclusive') else 0)
         return [C(i, lo[2]) for i in range(lo[1], end)], st
+    if k[0] == 'adt':
+        # a local type with its own Iterator impl (e.g. strum's EnumIter): run its `next` until exhaustion
+        im = ex.pdb.trait_impl('core::iter::Iterator', k[1])
+        if im is not None and 'next' in im['items']:
+            cell = ex.new_tmp(st, it)
+            out = []
+            for _ in range(70):
+                r, st = ex.call_fn(st, im['items']['next'], [cell], None, ctx['depth'] + 1)
+                if r[0] != 'agg' or r[1][0] != 'adt' or r[1][1] != 'core::option::Option':
+                    raise Uncertified("local iterator %s with symbolic progress" % k[1])
+                if r[1][2] == 0:
+                    return out, st
+                out.append(r[2][0])
+            raise Uncertified("local iterator %s does not finish within 70 items" % k[1])
     raise Uncertified("iteration over %s" % (k,))
 
 
@@ -688,6 +717,59 @@ def apply(ex, ctx, st, f, args, dest_ty, term):
             raise Uncertified("reverse of %s" % arr[0])
         ex.store(st, args[0], mk('agg', arr[1], arr[2][::-1]))
         return UNIT, st
+    if path in ('core::array::<impl [T; N]>::as_slice', 'core::array::<impl [T; N]>::as_mut_slice', 'core::array::<impl [T; N]>::each_ref'):
+        if name == 'each_ref':
+            return agg(('array',), slice_elems(ex, st, args[0])), st
+        return args[0], st
+    if path == 'core::array::from_fn':
+        if dest_ty is None or dest_ty['k'] != 'array':
+            raise Uncertified("array::from_fn without a destination type")
+        n_ = dest_ty['len'] if dest_ty['len'] is not None else ex.const_param(dest_ty.get('len_name'))
+        out_ = []
+        for i_ in range(n_):
+            r_, st = call_closure(ex, ctx, st, args[0], [C(i_, 'usize')])
+            out_.append(r_)
+        return agg(('array',), out_), st
+    if int_method('rotate_right') or int_method('rotate_left'):
+        a, b = args
+        ty = ty_of(a)
+        bits = INT_BITS[ty]
+        if b[0] != 'c':
+            raise Uncertified("rotate by a symbolic amount")
+        n_ = b[1] % bits
+        if n_ == 0:
+            return a, st
+        if name == 'rotate_left':
+            n_ = bits - n_
+        return mk_bin('BitOr', mk_bin('Shr', a, C(n_, 'u32'), ty, ty), mk_bin('Shl', a, C(bits - n_, 'u32'), ty, ty), ty, ty), st
+    if int_method('wrapping_neg'):
+        a = args[0]
+        ty = ty_of(a)
+        return mk_bin('Sub', C(0, ty), a, ty, ty), st
+    if int_method('div_euclid') or int_method('rem_euclid'):
+        a, b = args
+        ty = ty_of(a)
+        from .pdb import is_signed as _sg
+        ex.obligations.append(Obligation(key, line, 'DivisionByZero', mk_bin('Ne', b, C(0, ty), ty, 'bool'), st.gstack, [a, b], tuple(ex.fn_stack)))
+        if not _sg(ty):
+            return mk_bin('Div' if name == 'div_euclid' else 'Rem', a, b, ty, ty), st
+        return mk_call(name, (a, b), ty), st
+    if path == 'core::slice::<impl [T]>::swap' and not (args[1][0] == 'c' and args[2][0] == 'c'):
+        arr = ex.load(st, args[0])
+        i, j = args[1], args[2]
+        if arr[0] != 'agg':
+            raise Uncertified("swap on %s" % arr[0])
+        n_ = len(arr[2])
+        ok_ = mk_and(mk_bin('Lt', i, C(n_, 'usize'), 'usize', 'bool'), mk_bin('Lt', j, C(n_, 'usize'), 'usize', 'bool'))
+        ex.obligations.append(Obligation(key, line, 'slice::swap bounds', ok_, st.gstack, [i, j], tuple(ex.fn_stack)))
+        vi = ex.project(arr, i)
+        vj = ex.project(arr, j)
+        new_ = []
+        for k_, e_ in enumerate(arr[2]):
+            ck = C(k_, 'usize')
+            new_.append(mk_ite(mk_bin('Eq', i, ck, 'usize', 'bool'), vj, mk_ite(mk_bin('Eq', j, ck, 'usize', 'bool'), vi, e_)))
+        ex.store(st, args[0], mk('agg', arr[1], tuple(new_)))
+        return UNIT, st
     if path == 'core::slice::<impl [T]>::swap':
         arr = ex.load(st, args[0])
         i, j = args[1], args[2]
@@ -742,9 +824,9 @@ def apply(ex, ctx, st, f, args, dest_ty, term):
             ex.store(st, dst, mk('agg', a_[1], b_[2]))
         return UNIT, st
     if path == 'core::slice::<impl [T]>::binary_search_by':
-        arr0 = ex.load(st, args[0])
-        if arr0[0] != 'tbl':
-            raise Uncertified("binary_search_by over a non-table slice")
+        arr0 = as_table(ex, ex.load(st, args[0]))
+        if arr0 is None:
+            raise Uncertified("binary_search_by over a non-constant slice")
         from .sym import atom as _atom
         el = _atom('$elem', arr0[3])
         cmpd, st = call_closure(ex, ctx, st, args[1], [mk('ref', ('val', el), None)])
@@ -766,15 +848,25 @@ def apply(ex, ctx, st, f, args, dest_ty, term):
         ex.store(st, args[0], mk('agg', arr[1], arr[2][r_:] + arr[2][:r_]))
         return UNIT, st
     if path == 'core::slice::<impl [T]>::partition_point':
-        arr = ex.load(st, args[0])
-        if arr[0] != 'tbl':
-            raise Uncertified("partition_point over a non-table slice")
+        raw = ex.load(st, args[0])
+        if raw[0] == 'agg' and len(raw[2]) <= 64:
+            # small slice: expand to a chain over the elements (exact for a partitioned slice, which is the
+            # routine's own precondition); keeps the result a plain comparison table
+            res_ = C(len(raw[2]), 'usize')
+            elems_ = slice_elems(ex, st, args[0])
+            for i_ in range(len(elems_) - 1, -1, -1):
+                pr, st = call_closure(ex, ctx, st, args[1], [elems_[i_]])
+                res_ = mk_ite(pr, res_, C(i_, 'usize'))
+            return res_, st
+        arr = as_table(ex, raw)
+        if arr is None:
+            raise Uncertified("partition_point over a non-constant slice")
         from .sym import atom as _atom
         el = _atom('$elem', arr[3])
         pred, st = call_closure(ex, ctx, st, args[1], [mk('ref', ('val', el), None)])
         return mk_call('partition_point', (mk('tblref', arr[1]), pred), 'usize'), st
     if path == 'core::slice::<impl [T]>::binary_search':
-        arr = ex.load(st, args[0])
+        arr = as_table(ex, ex.load(st, args[0])) or ex.load(st, args[0])
         x = ex.load(st, args[1])
         if arr[0] == 'tbl':
             R = 'core::result::Result'
@@ -871,6 +963,10 @@ def apply(ex, ctx, st, f, args, dest_ty, term):
             ex.store(st, itref, mk('agg', k, (s_, C(pos[1] + 1, 'usize'))))
             has = mk_call('has_byte', (s_, pos), 'bool')
             return mk_ite(has, option_some(mk_call('byte_at', (s_, pos), 'u8')), OPTION_NONE), st
+        if k[0] == 'model' and k[1] == 'Chars' and it[2][0][0] == 'c':
+            s_, pos = it[2]
+            ex.store(st, itref, mk('agg', k, (s_, C(pos[1] + 1, 'usize'))))
+            return (option_some(C(ord(s_[1][pos[1]]), 'char')) if pos[1] < len(s_[1]) else OPTION_NONE), st
         if k[0] == 'model' and k[1] == 'Chars':
             s_, pos = it[2]
             ex.store(st, itref, mk('agg', k, (s_, C(pos[1] + 1, 'usize'))))
@@ -1049,6 +1145,31 @@ def apply(ex, ctx, st, f, args, dest_ty, term):
         return m_iter('ArrayIter', agg(('array',), wins), C(0, 'usize')), st
 
     # ---- strings ---------------------------------------------------------------------------
+    if path == 'core::str::<impl str>::find' and args[0][0] in ('c', 'ref'):
+        s0 = args[0]
+        while s0[0] == 'ref':
+            s0 = ex.load(st, s0)
+        pat = args[1]
+        if s0[0] == 'c' and ty_of(pat) == 'char':
+            # byte offset of the first occurrence in a constant string
+            res = OPTION_NONE
+            off = len(s0[1].encode('utf-8'))
+            for ch in reversed(s0[1]):
+                off -= len(ch.encode('utf-8'))
+                res = mk_ite(mk_bin('Eq', pat, C(ord(ch), 'char'), 'char', 'bool'), option_some(C(off, 'usize')), res)
+            return res, st
+        raise Uncertified("str::find with a symbolic haystack")
+    if path == 'core::str::<impl str>::contains' and args[0][0] in ('c', 'ref'):
+        s0 = args[0]
+        while s0[0] == 'ref':
+            s0 = ex.load(st, s0)
+        pat = args[1]
+        if s0[0] == 'c' and ty_of(pat) == 'char':
+            res = FALSE
+            for ch in set(s0[1]):
+                res = mk_or(res, mk_bin('Eq', pat, C(ord(ch), 'char'), 'char', 'bool'))
+            return res, st
+        raise Uncertified("str::contains with a symbolic haystack")
     if path == 'core::str::<impl str>::chars':
         return m_iter('Chars', args[0], C(0, 'usize')), st
     if path == 'core::str::<impl str>::split_whitespace':
